@@ -329,3 +329,68 @@ Theorem unconvertible_value_rejected : forall f d, fmt_ok f = true -> forms_ok f
   forall len, parse f len (render d) = Err ValueError.
 Proof. exact unconvertible_value_lemma. Qed.
 Print Assumptions unconvertible_value_rejected.
+
+(* ---- clauses 1-3: ONE extra token at the k-th item boundary of a WELL-FORMED line (before its "--" tail) ----
+   prefix_toks d k: the tokens of the command names and of the first k items;  suffix_toks d k: those of the remaining
+   items and of the tail;  insert_tok d k tok = prefix_toks d k ++ tok :: suffix_toks d k.
+   The bridge between the two vocabularies: the strict loop processes every such prefix without error, and "--" is not in it *)
+Theorem scans_rendered_prefix : forall f d k, fmt_ok f = true -> wf_line f d = true ->
+  exists g A cns st, aug_format f = Ok (g, A, cns) /\ scans g (prefix_toks d k) st /\ existsb is_dd (prefix_toks d k) = false /\
+                     st = line_state A (prefix_line d k).
+Proof. exact scans_rendered_prefix_lemma. Qed.
+Print Assumptions scans_rendered_prefix.
+Theorem rendered_line_splits : forall d k, render d = prefix_toks d k ++ suffix_toks d k.
+Proof. exact render_split. Qed.
+Print Assumptions rendered_line_splits.
+
+Theorem unknown_option_in_line_rejected : forall f d k, fmt_ok f = true -> wf_line f d = true ->
+  forall name, name <> [] -> ClassifyLemmas.no_eq name = true -> unknown_name f name = true ->
+  parse f false (insert_tok d k (ClassifyLemmas.long_tok name)) = Err NoSuchOption.
+Proof. exact unknown_option_in_line_rejected_lemma. Qed.
+Print Assumptions unknown_option_in_line_rejected.
+Theorem unknown_option_with_value_in_line_rejected : forall f d k, fmt_ok f = true -> wf_line f d = true ->
+  forall name value, ClassifyLemmas.no_eq name = true -> unknown_name f name = true ->
+  parse f false (insert_tok d k (ClassifyLemmas.long_tok (name ++ EQ :: value))) = Err NoSuchOption.
+Proof. exact unknown_option_with_value_in_line_rejected_lemma. Qed.
+Print Assumptions unknown_option_with_value_in_line_rejected.
+Theorem unknown_short_option_in_line_rejected : forall f d k, fmt_ok f = true -> wf_line f d = true ->
+  forall flags c more,
+  starts_dash (flags ++ c :: more) = false -> forallb (ClassifyLemmas.is_flag f) flags = true -> unknown_name f [c] = true ->
+  parse f false (insert_tok d k (ClassifyLemmas.short_tok (flags ++ c :: more))) = Err NoSuchOption.
+Proof. exact unknown_short_option_in_line_rejected_lemma. Qed.
+Print Assumptions unknown_short_option_in_line_rejected.
+
+Theorem flag_with_value_in_line_rejected : forall f d k, fmt_ok f = true -> wf_line f d = true ->
+  forall o name value,
+  listed f o -> opt_named o name = true -> ClassifyLemmas.no_eq name = true -> o_accepts o = false ->
+  parse f false (insert_tok d k (ClassifyLemmas.long_tok (name ++ EQ :: value))) = Err CannotParse.
+Proof. exact flag_with_value_in_line_rejected_lemma. Qed.
+Print Assumptions flag_with_value_in_line_rejected.
+
+(* no value follows: the end of the line, the "--" separator, another option, an empty token or "-" *)
+Theorem value_missing_in_line_rejected : forall f d k, fmt_ok f = true -> wf_line f d = true ->
+  forall o name,
+  listed f o -> opt_named o name = true -> name <> [] -> ClassifyLemmas.no_eq name = true -> o_required o = true ->
+  no_value_next (suffix_toks d k) = true ->
+  parse f false (insert_tok d k (ClassifyLemmas.long_tok name)) = Err CannotParse.
+Proof. exact value_missing_in_line_rejected_lemma. Qed.
+Print Assumptions value_missing_in_line_rejected.
+Theorem value_empty_in_line_rejected : forall f d k, fmt_ok f = true -> wf_line f d = true ->
+  forall o name,
+  listed f o -> opt_named o name = true -> ClassifyLemmas.no_eq name = true -> o_required o = true ->
+  parse f false (insert_tok d k (ClassifyLemmas.long_tok (name ++ [EQ]))) = Err CannotParse.
+Proof. exact value_empty_in_line_rejected_lemma. Qed.
+Print Assumptions value_empty_in_line_rejected.
+Theorem short_value_missing_in_line_rejected : forall f d k, fmt_ok f = true -> wf_line f d = true ->
+  forall o flags c,
+  listed f o -> o_short o = Some [c] -> o_required o = true ->
+  starts_dash (flags ++ [c]) = false -> forallb (ClassifyLemmas.is_flag f) flags = true ->
+  no_value_next (suffix_toks d k) = true ->
+  parse f false (insert_tok d k (ClassifyLemmas.short_tok (flags ++ [c]))) = Err CannotParse.
+Proof. exact short_value_missing_in_line_rejected_lemma. Qed.
+Print Assumptions short_value_missing_in_line_rejected.
+(* lenient mode: no line at all ends in a parse error (the format hypothesis of the line theorems) *)
+Theorem line_lenient_total : forall f, fmt_ok f = true -> opts_listed_ok f = true ->
+  forall toks, parse f true toks <> Err CannotParse /\ parse f true toks <> Err NoSuchOption.
+Proof. exact line_lenient_no_parse_error. Qed.
+Print Assumptions line_lenient_total.
